@@ -53,7 +53,7 @@ class Snapshot:
             if kind == 'array':
                 h.true(lab + ': shape/dtype', obj.shape == shape and obj.dtype == typ)
                 if obj.shape == shape:
-                    h.same(lab, obj, old)
+                    h.same(lab, obj, old, bitwise=True)
             elif kind == 'seq':
                 h.true(lab + ': length/type', len(obj) == shape and type(obj) is typ)
                 if len(obj) == shape:
@@ -61,12 +61,12 @@ class Snapshot:
                         if isinstance(y, (np.ndarray, list, tuple)) or isinstance(getattr(y, 'data', None), list):
                             h.true(f'{lab}: element {i} identity', x is y)
                         else:
-                            h.same(f'{lab}: element {i}', x, y)
+                            h.same(f'{lab}: element {i}', x, y, bitwise=True)
             else:
                 h.true(lab + ': length/type', len(obj.data) == shape and type(obj) is typ)
                 if len(obj.data) == shape:
                     for i, (x, y) in enumerate(zip(obj.data, old)):
-                        h.same(f'{lab}: value {i}', x, y)
+                        h.same(f'{lab}: value {i}', x, y, bitwise=True)
 
 
 def guarded(h, fn, args):
@@ -93,14 +93,14 @@ def same_result(h, label, a, b):
         for k, (x, y) in enumerate(zip(a, b)):
             same_result(h, f'{label}[{k}]', x, y)
     elif hasattr(a, 'real') and hasattr(a, 'dual') and hasattr(a, 'vec'):
-        h.same(label, a.vec, b.vec)
+        h.same(label, a.vec, b.vec, bitwise=True)
     elif hasattr(a, 'data') and isinstance(a.data, list):
         for k, (x, y) in enumerate(zip(a.data, b.data)):
-            h.same(f'{label}.{k}', x, y)
+            h.same(f'{label}.{k}', x, y, bitwise=True)
     elif isinstance(a, (bool, np.bool_)) or type(a).__name__ == 'SBool':
         h.true(label, c15._same_truth(a, b))
     else:
-        h.same(label, a, b)
+        h.same(label, a, b, bitwise=True)
 
 
 # ----------------------------------------------------------------------------- base functions with vector arguments, every form
@@ -191,8 +191,8 @@ def _(h):
     X = SE3(T, check=False)
     Rv, tv = X.R, X.t
     (X * X); X.inv(); X.rpy(); SO3(Rv, check=False).inv()
-    h.same('T unchanged', T, before)
-    h.same('object value unchanged', X.A, before)
+    h.same('T unchanged', T, before, bitwise=True)
+    h.same('object value unchanged', X.A, before, bitwise=True)
 
 
 # ----------------------------------------------------------------------------- class constructors / methods
